@@ -331,9 +331,42 @@ def sDrawEntries (isRoot : Bool) (depth margin : Nat) : Entries → List Nat
       sDrawEntries isRoot depth margin rest
 end
 
+/-- `icons()` / `cursors()` from the abstract tree (`Node.groups`, `parseGroup`, `Node.groupImage`),
+in the format of `groupsS` without the references.  Assumes the group data lie at even addresses
+(`groupsAligned` is part of `hyp=` for these two operations: that is a property of the layout). -/
+def sGroupS (t : Node) (g : GroupSpec) : String :=
+  let img := fun (p : Nat × Nat) =>
+    let im := match t.groupImage g p.2 with
+      | .ok (.data c _) => "#" ++ digest c
+      | .ok _ => "?"
+      | .error e => "!" ++ ferr e
+    s!"{p.2}:{p.1}:{im}"
+  s!"(ty={g.kind},n={g.entries.length},,es=,img=[{join ((g.entries.take 8).map img) ";"}])"
+
+def sGroups (t : Node) (ty : Nat) : String :=
+  let strs := ((t.groups ty).take countCap).map fun (nm, d) =>
+    match d with
+    | .error e => "!" ++ ferr e
+    | .ok blob =>
+      match parseGroup blob with
+      | .error e => "!" ++ e.name
+      | .ok g => s!"{sNameS nm}={sGroupS t g}"
+  s!"ok [{join strs}]"
+
+/-- no item of `icons()` / `cursors()` is `Misaligned`: on a section that represents a tree this says
+that every group's data lie at an even address (`C12_groups_on_tree`) -/
+def groupsAligned (r : Resources) (ty : Nat) : Bool :=
+  match groups r ty with
+  | .ok items => items.all fun
+    | .error (.pe .misaligned) => false
+    | _ => true
+  | _ => true
+
 /-- ops whose answer the abstract tree determines; `-` = no claim -/
 def specAnswer (t : Node) (a : List String) : String :=
   match a with
+  | ["icons"] => sGroups t RT_GROUP_ICON
+  | ["cursors"] => sGroups t RT_GROUP_CURSOR
   | ["dump"] => "ok " ++ sDumpNode t
   | ["fsck"] => if t.depth ≤ 32 then "ok" else "-"
   | ["fmt"] => "ok " ++ textS (asc "Resources/\n" ++ sDrawNode true 0 0 t)
@@ -371,6 +404,10 @@ def specPart (c : Ctx) (all : List String) (a : List String) : String :=
       let enc := if all.contains "canon=1" then
           (if decide (encodeTree c.r.dirVA t = c.r.sec.toList) then " enc=1" else " enc=0") else ""
       let encodable := decide (Encodable c.r.dirVA t)
+      let small := small && (match a with
+        | ["icons"] => groupsAligned c.r RT_GROUP_ICON
+        | ["cursors"] => groupsAligned c.r RT_GROUP_CURSOR
+        | _ => true)
       s!" ## hyp={if isTree && small then 1 else 0} istree={if isTree then 1 else 0} encodable={if encodable then 1 else 0}{enc} spec={specAnswer t a}"
 
 /-! ### dispatch on the sub-command -/
